@@ -85,6 +85,9 @@ fn main() {
             let code = h.join().unwrap_or(2);
             std::process::exit(code);
         }
+        "diag" => {
+            checks::diag::run(&args[2..]);
+        }
         "child" => {
             checks::child::run(&args[2..]);
         }
